@@ -7,10 +7,15 @@ def _find_replace(rows, fields):
     for row in rows:
         for field in fields:
             for pattern in field.get('patterns', []):
+                value = row[field['name']]
+                if value is None:
+                    # a null holds no text to look at: it stays null
+                    # (str(None) would turn it into the text 'None')
+                    continue
                 row[field['name']] = re.sub(
                     str(pattern['find']),
                     str(pattern['replace']),
-                    str(row[field['name']]))
+                    str(value))
         yield row
 
 
